@@ -105,6 +105,14 @@ def harnesses(tier):
         h = C09.node_harness(k); h.name = 'S4.' + h.name[2:]; hs.append(h)
     rf = C09.ranged_for_harness(); rf.name = 'S4.Ranged_For'; hs.append(rf)
     e = C07.equation_harness(); e.name = 'S4.Equation'; hs.append(e)
+    ef = C09.eval_function_harness(tier, subset=True); ef.name = 'S4.eval_function'; hs.append(ef)
+    from props import C10
+    for h, nm in ((C10.funcall_harness(True, True), 'S4.Fun_Call with arguments'), (C10.array_call_harness(), 'S4.Array_Call'), (C10.dot_access_harness(tier), 'S4.Dot_Access')):
+        h.name = nm; hs.append(h)
+    from props import C02
+    ob = C02.pass_harness('Block', tier); ob.name = 'S6.Block keeps its scope when a declaration can land in it'; hs.append(ob)       # block scoping survives the optimizer (var, auto, reference declarations)
+    for k in C09.CARRIERS:
+        c = C09.carrier_harness(k); c.name = 'S4.' + c.name[2:]; hs.append(c)
     for h in C08.harnesses(tier):
         if h.name.startswith('R2'): h.name = 'S4.Inline_Array'; hs.append(h)
     return hs
